@@ -56,6 +56,7 @@ type World struct {
 	localRegex map[string]string // pkgname.Func:var -> literal
 	cg         *CallGraph
 	regexIDs   map[string]string
+	placeholders map[string]bool
 }
 
 type FuncSite struct {
